@@ -376,8 +376,12 @@ impl<'a> JSONValidator<'a> {
           let _ = write!(self.state.data_location, "/{}", t);
 
           return Ok(());
-        } else if let Some(Occur::Optional { .. }) | Some(Occur::ZeroOrMore { .. }) =
-          &self.state.occurrence.take()
+        } else if let Some(Occur::Optional { .. })
+        | Some(Occur::ZeroOrMore { .. })
+        | Some(Occur::Exact {
+          lower: None | Some(0),
+          ..
+        }) = &self.state.occurrence.take()
         {
           self.state.advance_to_next_entry = true;
           return Ok(());
@@ -405,8 +409,12 @@ impl<'a> JSONValidator<'a> {
           self.state.data_location.push_str(&format!("/{}", t));
 
           return Ok(());
-        } else if let Some(Occur::Optional {}) | Some(Occur::ZeroOrMore {}) =
-          &self.state.occurrence.take()
+        } else if let Some(Occur::Optional {})
+        | Some(Occur::ZeroOrMore {})
+        | Some(Occur::Exact {
+          lower: None | Some(0),
+          ..
+        }) = &self.state.occurrence.take()
         {
           self.state.advance_to_next_entry = true;
           return Ok(());
